@@ -171,9 +171,13 @@ func (u *Unit) invoke(st *State, fr *Frame, in *ssa.Call, recv Value, m *types.F
 		for _, T := range impls {
 			c := Eq(rv.Tag, IntK(int64(u.eng.typeID(T))))
 			known = Or(known, c)
+			kt := u.knownTag(st, rv.Tag, rv.Typ)
+			if kt != nil && kt != c {
+				continue
+			}
 			s2 := st.clone()
 			s2.assume(c)
-			if !u.feasible(s2) {
+			if kt == nil && !u.feasible(s2) {
 				continue
 			}
 			fn := u.eng.prog.LookupMethod(T, m.Pkg(), m.Name())
@@ -621,7 +625,7 @@ func (u *Unit) callByContract(st *State, fr *Frame, in *ssa.Call, fn *ssa.Functi
 	st.trace = append(st.trace, CallRec{nil, args, nil}) // ghost call trace (see traceBytes)
 	// requires
 	for _, cl := range ct.Requires {
-		if !cl.visible(u.prop) {
+		if !cl.visible(u.prop) || cl.Assumed {
 			continue
 		}
 		env := u.paramEnv(st, fn, args, entry)
@@ -676,6 +680,34 @@ func (u *Unit) callByContract(st *State, fr *Frame, in *ssa.Call, fn *ssa.Functi
 					u.oblige(st, fmt.Sprintf("%s#frame:%s", fnKey(u.fn), u.where(fr, in)), "frame", []string{"C18"}, Eq(p.Len, IntK(0)), "")
 				}
 				u.havocRegion(st, p.R)
+			}
+		}
+	}
+	// writes param.field: the callee may overwrite the elements of that slice (as it was before the call)
+	for _, w := range ct.Writes {
+		parts := strings.SplitN(w, ".", 2)
+		for i, pn := range ct.ParamNames {
+			if pn != parts[0] || len(parts) != 2 {
+				continue
+			}
+			pv, ok := args[i].(PtrV)
+			if !ok || pv.Obj == nil {
+				continue
+			}
+			stt, ok := fn.Params[i].Type().Underlying().(*types.Pointer).Elem().Underlying().(*types.Struct)
+			if !ok {
+				continue
+			}
+			for fi := 0; fi < stt.NumFields(); fi++ {
+				if stt.Field(fi).Name() != parts[1] {
+					continue
+				}
+				if sl, ok := getPath(entry.objs[pv.Obj], append(append([]int(nil), pv.Path...), fi)).(SliceV); ok && sl.R != nil {
+					if !u.writable(sl.R) && u.specMode == 0 {
+						u.oblige(st, fmt.Sprintf("%s#frame:%s", fnKey(u.fn), u.where(fr, in)), "frame", []string{"C18"}, Eq(sl.Len, IntK(0)), "")
+					}
+					u.havocRange(st, sl.R, sl.Off, sl.Len)
+				}
 			}
 		}
 	}
